@@ -7,6 +7,7 @@
 (*   load / supported / setnnp on thread t, with the environment steps     *)
 (*                             that happened at the schedule point between *)
 (*                             prctl and seccomp (hook H2): spawn, migrate *)
+(*                             and during assembly (hook H3): migrate_asm  *)
 (* - each with the result class and the kernel state (chain, nnp per       *)
 (* thread) the specification expects afterwards.  Every maximal history is *)
 (* printed as one JSON line.                                               *)
@@ -35,6 +36,11 @@ GMigrate(t) ==
   \* one attempt per call; t = m stands for "no attempt"
   /\ hook' = IF t = m THEN hook ELSE Append(hook, [op |-> "migrate", to |-> t])
   /\ UNCHANGED hist
+\* the same during assembly (hook H3), before the library wires the goroutine
+GMigrateAsm(t) ==
+  /\ AttemptMigrateAsm(t) /\ Migration
+  /\ hook' = Append(hook, [op |-> "migrate_asm", to |-> t])
+  /\ UNCHANGED <<hist, callerT>>
 GBlock(t) ==
   /\ BlockSeccomp(t)
   /\ hist' = Append(hist, [op |-> "block", t |-> t, state |-> Snap'])
@@ -59,6 +65,7 @@ GNext ==
   \/ \E t \in threads \cap Callers : GDeny(t)
   \/ \E p \in threads, n \in Threads : GSpawn(p, n)
   \/ \E t \in threads : GMigrate(t)
+  \/ \E t \in threads : GMigrateAsm(t)
 GSpec == GInit /\ [][GNext]_gvars
 
 Terminal == pc = "idle" /\ loads = MaxLoads
